@@ -1161,6 +1161,7 @@ def run(tier):
     aesctr_drbg_seed_padding(chk)
     chk.floor('tables', sum(1 for o in chk.obls if o['rule'] == 'hash-constants'), 15)
     from .. import lints
+    lints.round_down_mask_keeps_high_word(chk, ['src/hash/', 'src/mac/', 'src/kdf/', 'src/rand/'])
     lints.length_is_boolean(chk, ['src/hash/', 'src/mac/', 'src/kdf/', 'src/rand/'])
     lints.tail_copy_from_running_pointer(chk, ('src/hash/', 'src/mac/', 'src/kdf/', 'src/rand/'))
     from .. import lints as _lints_ir
